@@ -650,6 +650,31 @@ impl<'tcx> Cx<'tcx> {
                     if let Some(tr) = self.tcx.trait_of_assoc(did) {
                         o = o.s("callee_trait", self.path(tr));
                     }
+                    // `f()` on a function item or closure handed in as `impl FnOnce()` / `Fn` / `FnMut`:
+                    // the trait call resolves to a shim; what runs is the function / closure itself
+                    let mut fn_like: Option<(rustc_hir::def_id::DefId, ty::GenericArgsRef<'tcx>)> = None;
+                    if let Some(tr) = self.tcx.trait_of_assoc(did) {
+                        let li = self.tcx.lang_items();
+                        if Some(tr) == li.fn_trait() || Some(tr) == li.fn_mut_trait() || Some(tr) == li.fn_once_trait() {
+                            if let Some(st) = gargs.get(0).and_then(|a| a.as_type()) {
+                                let st = self.tcx.try_normalize_erasing_regions(env, rustc_middle::ty::Unnormalized::new_wip(st)).unwrap_or(st);
+                                match st.kind() {
+                                    ty::FnDef(d, a) if d.is_local() => fn_like = Some((*d, a)),
+                                    _ => {}
+                                }
+                            }
+                        }
+                    }
+                    if let Some((fd, fa)) = fn_like {
+                        o = o.s("fn_item_call", self.path(fd));
+                        if let Ok(Some(inst2)) = ty::Instance::try_resolve(self.tcx, env, fd, fa) {
+                            let iname = self.instance_name(inst2);
+                            if iname.is_some() && self.inst_seen.insert(inst2) {
+                                self.instances.push((inst2, env));
+                            }
+                            o = o.s("fn_item_resolved", iname.unwrap_or_else(|| self.path(inst2.def_id())));
+                        }
+                    }
                     match ty::Instance::try_resolve(self.tcx, env, did, gargs) {
                         Ok(Some(inst)) => {
                             let rd = inst.def_id();
